@@ -116,7 +116,9 @@ def handle (op : String) (args : List String) (impl : String) : Option Verdict :
     return ⟨m, impl == m, s!"subset:{kind}:n={min n 4}"⟩
   | "tweak", [_fx, _t] => some ⟨"ok", impl == "ok", "tweak"⟩
   | "signrun", _ => some ⟨"ok", impl == "ok", "signrun"⟩
-  | "keyrun", _ => some ⟨"ok", impl == "ok", "keyrun"⟩
+  | "keygenrun", _ => some ⟨"ok", impl == "ok", "keygenrun"⟩
+  | "refreshrun", _ => some ⟨"ok", impl == "ok", "refreshrun"⟩
+  | "refreshsign", _ => some ⟨"ok", impl == "ok", "refreshsign"⟩
   | _, _ => none
 
 end Sygma.Drv.C08
